@@ -1063,6 +1063,23 @@ def has_error_step(c):
     return any(len(f) == len(c["vars"][v]["coeff"]) and not any(f) for st in c["steps"] for v, f in st["flags"])
 
 
+def parse_fp_line(l):
+    """FP <kind> <label> [NOTREPEATABLE] W=.. R=.. WS=..  ->  (kind, reads, writes incl. those that rewrite the same value)"""
+    w = l.split()
+    kind = "bias" if w[1] == "script" else w[1]
+    body = l.split(" W=", 1)[1]
+    W = [t for t in body.split(" R=")[0].split(",") if t]
+    rest = body.split(" R=", 1)[1]
+    R = [t for t in rest.split(" WS=")[0].split(",") if t]
+    WS = [t for t in rest.split(" WS=", 1)[1].split(",") if t] if " WS=" in rest else []
+    return kind, R, W + [t for t in WS if t not in W]
+
+
+def model_vocab(fp):
+    """the part of a derived footprint inside the model's location vocabulary (the names outside start with X)"""
+    return ([t for t in fp[0] if not t.startswith("X")], [t for t in fp[1] if not t.startswith("X")])
+
+
 def derive_footprints(sim, cases, d):
     """-> list of (case, t, flags per variable, comp fps, collect fps, bias fps) derived from the binary"""
     cases = [c for c in cases if not has_error_step(c)]
@@ -1083,10 +1100,7 @@ def derive_footprints(sim, cases, d):
         fps = {"comp": [], "collect": [], "bias": []}
         for l in ls:
             if l.startswith("FP "):
-                w = l.split()
-                kind = "bias" if w[1] == "script" else w[1]
-                W = [t for t in l.split(" W=")[1].split(" R=")[0].split(",") if t]
-                R = [t for t in l.split(" R=")[1].split(",") if t]
+                kind, R, W = parse_fp_line(l)
                 fps[kind].append((R, W))
         res.append((c, len(c["steps"]) - 1, flags, fps["comp"], fps["collect"], fps["bias"]))
     return res
@@ -1115,10 +1129,7 @@ def derive_rich_footprints(sim, cases, d):
         nrep = 0
         for l in out:
             if l.startswith("FP "):
-                w = l.split()
-                kind = "bias" if w[1] == "script" else w[1]
-                W = [t for t in l.split(" W=")[1].split(" R=")[0].split(",") if t]
-                R = [t for t in l.split(" R=")[1].split(",") if t]
+                kind, R, W = parse_fp_line(l)
                 if "NOTREPEATABLE" in l:
                     nrep += 1
                 fps[kind].append((R, W))
@@ -1143,8 +1154,8 @@ def write_gen_footprints(derived, rich=()):
                        for x in c["biases"]])
         sc = coq_list(["(%d, %s)" % (v, coq_z(f)) for v, f in c["script"]])
         cfg = "(mkCfg %s %s %s %s %s)" % (vs, bs, "true" if c["use_script"] else "false", "true" if c["after"] else "false", sc)
-        rows.append("  mkProbe %s %d\n    %s\n    %s\n    %s" % (cfg, t, coq_list([coq_fp(*f) for f in comp]), coq_list([coq_fp(*f) for f in coll]),
-                                                                  coq_list([coq_fp(*f) for f in bias])))
+        rows.append("  mkProbe %s %d\n    %s\n    %s\n    %s" % (cfg, t, coq_list([coq_fp(*model_vocab(f)) for f in comp]), coq_list([coq_fp(*model_vocab(f)) for f in coll]),
+                                                                  coq_list([coq_fp(*model_vocab(f)) for f in bias])))
     L.append(";\n".join(rows))
     L.append("].")
     L += ["", "(* configurations outside the model (other component and bias kinds): derived footprints only *)",
@@ -1152,7 +1163,7 @@ def write_gen_footprints(derived, rich=()):
     rrows = []
     for c, comp, coll, bias, nrep in rich:
         rrows.append("  mkProbe (mkCfg [] [] false false []) 0\n    %s\n    %s\n    %s" % (
-            coq_list([coq_fp(*f) for f in comp]), coq_list([coq_fp(*f) for f in coll]), coq_list([coq_fp(*f) for f in bias])))
+            coq_list([coq_fp(*model_vocab(f)) for f in comp]), coq_list([coq_fp(*model_vocab(f)) for f in coll]), coq_list([coq_fp(*model_vocab(f)) for f in bias])))
     L.append(";\n".join(rrows))
     L.append("].")
     txt = "\n".join(L) + "\n"
@@ -1209,7 +1220,7 @@ def footprint_oracle(run, model, derived, rich):
             if len(got) != len(want):
                 bad = "%d items derived, %d in the model" % (len(got), len(want))
             else:
-                for i, (g, w_) in enumerate(zip(got, want)):
+                for i, (g, w_) in enumerate(zip([model_vocab(f) for f in got], want)):
                     if set(g[0]) != set(w_[0]) or set(g[1]) != set(w_[1]):
                         bad = "item %d reads %s writes %s in the implementation; the model's table has reads %s writes %s" % (
                             i, sorted(g[0]), sorted(g[1]), sorted(w_[0]), sorted(w_[1]))
@@ -1218,15 +1229,30 @@ def footprint_oracle(run, model, derived, rich):
                 run.violation("footprints:derived-differs-from-model:" + kind.lower(),
                               "footprints derived from the binary (item run alone / one location perturbed at a time) differ from the model's footprint table, %s loop: %s; config:\n%s" % (
                                   kind.lower(), bad, "\n".join(tcase_config(c))), {"kind": "footprint", "scenario": probe_scenario(c)})
-    for c, comp, coll, bias, nrep in rich:
+    # candidate races over the WIDENED vocabulary (model locations + cached group centres / rotations, further members of the
+    # variables, module statics, proxy force array): a location touched by two items of one loop, at least one of them writing
+    # it - also when the value written is the one it already had
+    allc = [(c, comp, coll, bias, 0, probe_scenario(c), tcase_config(c)) for c, t, flags, comp, coll, bias in ok] + \
+           [(c, comp, coll, bias, nrep, rich_probe_scenario(c, "P%d" % c["id"]), rcase_config(c)) for c, comp, coll, bias, nrep in rich]
+    nloc = set()
+    for c, comp, coll, bias, nrep, scen, conf in allc:
+        for kind, l in (("comp", comp), ("bias", bias), ("collect", coll)):
+            for f in l:
+                nloc.update(t.split(":")[0] for t in f[0] + f[1])
+    run.dist("footprints: location classes reached by the probes", len(nloc))
+    run.cov["correspondence"]["footprint_location_classes"] = sorted(nloc)
+    for c, comp, coll, bias, nrep, scen, conf in allc:
         for kind, l in (("comp", comp), ("bias", bias), ("collect", coll)):
             for i in range(len(l)):
                 for j in range(i + 1, len(l)):
                     if not fp_indep(l[i], l[j]):
-                        run.violation("footprints:items-not-independent:" + kind,
-                                      "derived footprints of two items of the %s loop overlap: item %d reads %s writes %s, item %d reads %s writes %s; config:\n%s" % (
-                                          kind, i, l[i][0], l[i][1], j, l[j][0], l[j][1], "\n".join(rcase_config(c))),
-                                      {"kind": "footprint", "scenario": rich_probe_scenario(c, "P%d" % c["id"])})
+                        shared = sorted((set(l[i][1]) & set(l[j][0] + l[j][1])) | (set(l[j][1]) & set(l[i][0] + l[i][1])))
+                        outside = all(t.startswith("X") for t in shared)
+                        run.violation(("footprints:candidate-race:" if outside else "footprints:items-not-independent:") + kind + (":" + shared[0].split(":")[0] if outside else ""),
+                                      "two items of the %s loop touch the same location(s) %s (derived from the binary; at least one of them writes, possibly the value it already had): "
+                                      "item %d reads %s writes %s, item %d reads %s writes %s; config:\n%s" % (
+                                          kind, shared, i, l[i][0], l[i][1], j, l[j][0], l[j][1], "\n".join(conf)),
+                                      {"kind": "footprint", "scenario": scen})
 
 
 def probe_cases(r_cases):
